@@ -4,6 +4,7 @@ package main
 
 import (
 	"fmt"
+	"go/constant"
 	"go/token"
 	"go/types"
 	"os"
@@ -150,8 +151,17 @@ func (c *Ctx) ruleFlagTable() {
 				if v := nilCheckedValue(l); v != nil && l.Pos && v == ssa.Value(parse.Params[0]) {
 					nilSet = true
 				}
+				// "under <env>": the path taken when the variable is set (`Getenv(X) != ""`, `_, ok := LookupEnv(X); ok`) -
+				// the path of the other answer is not that construct
+				isSetTest := false
+				switch {
+				case l.Kind == "eq" && !l.Pos && l.X != nil && l.Y != nil:
+					isSetTest = constArg(l.X) == "" && isStringConst(l.X) || constArg(l.Y) == "" && isStringConst(l.Y)
+				case l.Kind == "cond" && l.Pos:
+					isSetTest = true
+				}
 				for _, x := range []ssa.Value{l.X, l.Y, l.Val} {
-					if x == nil {
+					if x == nil || !isSetTest {
 						continue
 					}
 					for _, rr := range P.Resolve(x) {
@@ -284,22 +294,59 @@ func (c *Ctx) ruleFlagTable() {
 		a := call.Call.Args
 		where := P.Pos(call.Pos())
 		// bool: false | parseBool(Getenv(SCAN_TESTS)) under Getenv != ""
-		leaves := c.phiLeaves(a[0], nil, 0)
 		// (parseBool("") is false - CONFIG/BOOL -, so parseBool(Getenv(X)) without the non-empty test is the same value)
-		okB := len(leaves) == 2 || (len(leaves) == 1 && func() bool { _, isC := constBool(leaves[0].Val); return !isC }())
-		for _, lf := range leaves {
-			if cv, isC := constBool(lf.Val); isC {
+		// a helper that computes the value (`parseEnvBool(name, false)`) is read in the context of this call
+		type pinnedLeaf struct {
+			val  ssa.Value
+			pins pinMap
+		}
+		var pls []pinnedLeaf
+		var expand func(v ssa.Value, pins pinMap, depth int)
+		expand = func(v ssa.Value, pins pinMap, depth int) {
+			for _, lf := range c.phiLeaves(v, nil, 0) {
+				lv := lf.Val
+				if _, isParam := lv.(*ssa.Parameter); isParam && len(pins) > 0 {
+					var rs []ssa.Value
+					P.PinnedAll(pins, func() { rs = P.Resolve(lv) })
+					if len(rs) == 1 {
+						lv = rs[0]
+					}
+				}
+				if hc, isCall := lv.(*ssa.Call); isCall && depth < 3 {
+					callee := hc.Call.StaticCallee()
+					if callee != nil && FuncName(callee) != "config.parseBool" && P.IsProductFunc(callee) && !P.isAnchor(callee) && len(callee.Blocks) > 0 && callee.Signature.Results().Len() == 1 && pins[callee] == nil {
+						np := pinMap{callee: hc}
+						for k, v2 := range pins {
+							np[k] = v2
+						}
+						allInstrs(callee, func(_ *ssa.BasicBlock, i2 ssa.Instruction) {
+							if r2, isRet := i2.(*ssa.Return); isRet && len(r2.Results) == 1 {
+								expand(r2.Results[0], np, depth+1)
+							}
+						})
+						continue
+					}
+				}
+				pls = append(pls, pinnedLeaf{lv, pins})
+			}
+		}
+		expand(a[0], pinMap{}, 0)
+		okB := len(pls) == 2 || (len(pls) == 1 && func() bool { _, isC := constBool(pls[0].val); return !isC }())
+		for _, lf := range pls {
+			if cv, isC := constBool(lf.val); isC {
 				if cv {
 					okB = false
 				}
 				continue
 			}
-			pc, isCall := lf.Val.(*ssa.Call)
+			pc, isCall := lf.val.(*ssa.Call)
 			if !isCall || pc.Call.StaticCallee() == nil || FuncName(pc.Call.StaticCallee()) != "config.parseBool" {
 				okB = false
 				continue
 			}
-			if P.Desc(pc.Call.Args[0]) != "call(os.Getenv; const(\""+envOfFlag["scan-tests"]+"\"))" {
+			var d string
+			P.PinnedAll(lf.pins, func() { d = P.Desc(pc.Call.Args[0]) })
+			if d != "call(os.Getenv; const(\""+envOfFlag["scan-tests"]+"\"))" {
 				okB = false
 			}
 		}
@@ -362,6 +409,35 @@ func (c *Ctx) ruleParseHelpers() {
 				nApp++
 				// e = phi[trimmed, ToUpper(trimmed)] selected by toUpper
 				leaves := c.phiLeaves(e, nil, 0)
+				// the choice made in a helper (`normalizeCase(trimmed, toUpper)`): its returns, read through its parameters
+				if hc, isCall := e.(*ssa.Call); isCall && len(leaves) == 1 {
+					if callee := hc.Call.StaticCallee(); callee != nil && P.IsProductFunc(callee) && !P.isAnchor(callee) && len(callee.Blocks) > 0 && callee.Signature.Results().Len() == 1 {
+						leaves = nil
+						allInstrs(callee, func(b2 *ssa.BasicBlock, i2 ssa.Instruction) {
+							if r2, isRet := i2.(*ssa.Return); isRet && len(r2.Results) == 1 {
+								for _, lf := range c.phiLeaves(r2.Results[0], nil, 0) {
+									if _, isPhi := r2.Results[0].(*ssa.Phi); !isPhi {
+										lf.Guards = P.BlockGuards(b2)
+									}
+									leaves = append(leaves, lf)
+								}
+							}
+						})
+					}
+				}
+				isToUpper := func(v ssa.Value) bool {
+					if v == fn.Params[1] {
+						return true
+					}
+					if hc, isCall := e.(*ssa.Call); isCall && hc.Call.StaticCallee() != nil {
+						for i, prm := range hc.Call.StaticCallee().Params {
+							if v == ssa.Value(prm) && i < len(hc.Call.Args) && hc.Call.Args[i] == ssa.Value(fn.Params[1]) {
+								return true
+							}
+						}
+					}
+					return false
+				}
 				var trimmed ssa.Value
 				for _, lf := range leaves {
 					v := lf.Val
@@ -369,6 +445,11 @@ func (c *Ctx) ruleParseHelpers() {
 					if u := P.CallTo(v, "strings.ToUpper"); u != nil {
 						isUp = true
 						v = u.Call.Args[0]
+					}
+					if _, isParam := v.(*ssa.Parameter); isParam {
+						if rs := P.Resolve(v); len(rs) == 1 {
+							v = rs[0]
+						}
 					}
 					ts := P.CallTo(v, "strings.TrimSpace")
 					if ts == nil {
@@ -379,8 +460,8 @@ func (c *Ctx) ruleParseHelpers() {
 					if !strings.HasPrefix(P.Desc(ts.Call.Args[0]), "elem(call(strings.Split; ") || !strings.HasSuffix(P.Desc(ts.Call.Args[0]), ", const(\",\")))") {
 						okAll, why = false, "item is not a part of strings.Split(input, \",\")"
 					}
-					upGuard := hasLit(lf.Guards, func(l Lit) bool { return l.Kind == "cond" && l.Val == fn.Params[1] && l.Pos })
-					noUpGuard := hasLit(lf.Guards, func(l Lit) bool { return l.Kind == "cond" && l.Val == fn.Params[1] && !l.Pos })
+					upGuard := hasLit(lf.Guards, func(l Lit) bool { return l.Kind == "cond" && l.Val != nil && isToUpper(l.Val) && l.Pos })
+					noUpGuard := hasLit(lf.Guards, func(l Lit) bool { return l.Kind == "cond" && l.Val != nil && isToUpper(l.Val) && !l.Pos })
 					if isUp && !upGuard {
 						okAll, why = false, "upper-casing is not controlled by the toUpper parameter"
 					}
@@ -914,6 +995,11 @@ func (c *Ctx) ruleSkipShape() {
 	c.ruleIterOne(fn)
 }
 
+func isStringConst(v ssa.Value) bool {
+	cs, ok := v.(*ssa.Const)
+	return ok && cs.Value != nil && cs.Value.Kind() == constant.String
+}
+
 func allSubs(l Lit, pred func(Lit) bool) bool {
 	if len(l.Subs) == 0 {
 		return false
@@ -938,7 +1024,21 @@ func (c *Ctx) unadjustedPosition(v ssa.Value) bool {
 			return false
 		}
 		cv, isC := constBool(pc.Call.Args[2])
-		return isC && !cv
+		if !isC {
+			// `PositionFor(pos, isCgoCopy(file))`: adjusted exactly for the copies cmd/cgo makes
+			if P.RootsAll(pc.Call.Args[2], func(a ssa.Value) bool {
+				if hp := P.CallTo(a, "strings.HasPrefix"); hp != nil {
+					return strings.HasPrefix(constArg(hp.Call.Args[1]), "// Code generated by cmd/cgo") && strings.Contains(P.Desc(hp.Call.Args[0]), "go/ast.Comment.Text)")
+				}
+				ac, isCall := a.(*ssa.Call)
+				return isCall && ac.Call.StaticCallee() != nil && c.isCgoCopyPredicate(ac.Call.StaticCallee())
+			}) {
+				c.cgoNameSeen = true
+				return true
+			}
+			return false
+		}
+		return !cv
 	}
 	// the adjusted position, for the copy cmd/cgo makes of a file only (it lives in the build cache; its //line
 	// directive names the file it was made from): computed, or assigned, under the test for such a copy
@@ -950,7 +1050,8 @@ func (c *Ctx) unadjustedPosition(v ssa.Value) bool {
 			}
 			// the test itself (a helper's answer is expanded into the conditions it stands for) ...
 			if hp := P.litCallTo(l, "strings.HasPrefix"); hp != nil {
-				return strings.HasPrefix(constArg(hp.Call.Args[1]), "// Code generated by cmd/cgo") && strings.Contains(P.Desc(hp.Call.Args[0]), "go/ast.Comment.Text)")
+				isHeader := P.RootsAll(hp.Call.Args[1], func(a ssa.Value) bool { return strings.HasPrefix(constArg(a), "// Code generated by cmd/cgo") })
+				return isHeader && strings.Contains(P.Desc(hp.Call.Args[0]), "go/ast.Comment.Text)")
 			}
 			// ... or a predicate that is not looked into
 			return c.isCgoCopyPredicate(call.Call.StaticCallee())
@@ -1027,7 +1128,9 @@ func (c *Ctx) isCgoCopyPredicate(fn *ssa.Function) bool {
 		good := false
 		for _, l := range literals(P.condFormula(r.Results[0], 0), true) {
 			if call := P.litCallTo(l, "strings.HasPrefix"); call != nil && l.Pos {
-				if strings.HasPrefix(constArg(call.Call.Args[1]), "// Code generated by cmd/cgo") && strings.Contains(P.Desc(call.Call.Args[0]), "go/ast.Comment.Text)") {
+				// the prefix: a literal, or a parameter that every caller fills with it
+				isHeader := P.RootsAll(call.Call.Args[1], func(a ssa.Value) bool { return strings.HasPrefix(constArg(a), "// Code generated by cmd/cgo") })
+				if isHeader && strings.Contains(P.Desc(call.Call.Args[0]), "go/ast.Comment.Text)") {
 					good = true
 				}
 			}
